@@ -225,8 +225,9 @@ func (m *mapImpl) observe(keys []string) obs {
 
 type stateImpl struct {
 	reps map[string]*event.State
-	msgs [][]byte
+	msgs [][][]byte // every payload is the list of frames Encode produced
 	dirs []string
+	n    int // inflation: every model key stands for n real events of its kind, all treated alike (n = 1: as is)
 }
 
 var events = map[string]event.Event{
@@ -235,8 +236,30 @@ var events = map[string]event.Event{
 	"k3": &event.Connection{Peer: 2, Conn: security.ID(7), Username: []byte("u")},
 }
 
-func newStateImpl(durable bool) *stateImpl {
-	s := &stateImpl{reps: map[string]*event.State{}}
+// eventsOf lists the real events a model key stands for.
+func (s *stateImpl) eventsOf(k string) []event.Event {
+	if s.n <= 1 {
+		return []event.Event{events[k]}
+	}
+	out := make([]event.Event, 0, s.n)
+	for i := 0; i < s.n; i++ {
+		switch k {
+		case "k1":
+			out = append(out, &event.Subscription{Peer: 1, Conn: security.ID(5 + i), Ssid: message.Ssid{1, 2, uint32(i)}, Channel: []byte("a/")})
+		case "k2":
+			b := event.Ban(fmt.Sprintf("banned-key-%021d", i))
+			out = append(out, &b)
+		default:
+			out = append(out, &event.Connection{Peer: 2, Conn: security.ID(7 + i), Username: []byte("u")})
+		}
+	}
+	return out
+}
+
+func newStateImpl(durable bool) *stateImpl { return newStateImplN(durable, 1) }
+
+func newStateImplN(durable bool, n int) *stateImpl {
+	s := &stateImpl{reps: map[string]*event.State{}, n: n}
 	for i, r := range replicas {
 		switch {
 		case !durable:
@@ -266,46 +289,83 @@ func (s *stateImpl) close() {
 
 func (s *stateImpl) add(r, k string, t, op int64) {
 	setClock(t)
-	s.reps[r].Add(events[k])
+	for _, ev := range s.eventsOf(k) {
+		s.reps[r].Add(ev)
+	}
 	if op > 0 {
 		setClock(op)
 		o := event.NewState("")
-		o.Add(events[k])
-		s.msgs = append(s.msgs, o.Encode()[0])
+		for _, ev := range s.eventsOf(k) {
+			o.Add(ev)
+		}
+		s.msgs = append(s.msgs, o.Encode())
 	}
 }
 
 func (s *stateImpl) del(r, k string, t, op int64) {
 	setClock(t)
-	s.reps[r].Del(events[k])
+	for _, ev := range s.eventsOf(k) {
+		s.reps[r].Del(ev)
+	}
 	if op > 0 {
 		setClock(op)
 		o := event.NewState("")
-		o.Del(events[k])
-		s.msgs = append(s.msgs, o.Encode()[0])
+		for _, ev := range s.eventsOf(k) {
+			o.Del(ev)
+		}
+		s.msgs = append(s.msgs, o.Encode())
 	}
 }
 
-func (s *stateImpl) snap(r string) { s.msgs = append(s.msgs, s.reps[r].Encode()[0]) }
+func (s *stateImpl) snap(r string) { s.msgs = append(s.msgs, s.reps[r].Encode()) }
 
-func (s *stateImpl) deliver(i int, r string, relay bool) (map[string]ad, bool) {
-	in, err := event.DecodeState(s.msgs[i-1])
-	if err != nil {
-		core.Fatalf("DecodeState of an encoded state failed: %v", err)
-	}
-	out := s.reps[r].Merge(in)
-	delta := map[string]ad{}
-	if out == nil {
-		return delta, true
-	}
-	ds := out.(*event.State)
-	for k, ev := range events {
-		if v := ds.VerifGet(ev); !v.IsZero() {
-			delta[k] = ad{v.AddTime(), v.DelTime()}
+// uniform returns the value all n real events of model key k share in st, or ok = false if they differ.
+func (s *stateImpl) uniform(st *event.State, k string) (v rc.Value, has, ok bool) {
+	evs := s.eventsOf(k)
+	v, has, ok = st.VerifGet(evs[0]), st.Has(evs[0]), true
+	for _, ev := range evs[1:] {
+		w := st.VerifGet(ev)
+		if w.AddTime() != v.AddTime() || w.DelTime() != v.DelTime() || st.Has(ev) != has {
+			return v, has, false
 		}
 	}
+	return
+}
+
+func (s *stateImpl) deliver(i int, r string, relay bool) (map[string]ad, bool) {
+	delta := map[string]ad{}
+	var relayed [][]byte
+	for _, frame := range s.msgs[i-1] {
+		in, err := event.DecodeState(frame)
+		if err != nil {
+			core.Fatalf("DecodeState of an encoded state failed: %v", err)
+		}
+		out := s.reps[r].Merge(in)
+		if out == nil {
+			continue
+		}
+		ds := out.(*event.State)
+		for k := range events {
+			if v, _, ok := s.uniform(ds, k); !ok {
+				delta[k] = ad{-1, -1} // the events a key stands for were treated differently: never what the model says
+			} else if !v.IsZero() {
+				x := delta[k]
+				if v.AddTime() > x.A {
+					x.A = v.AddTime()
+				}
+				if v.DelTime() > x.D {
+					x.D = v.DelTime()
+				}
+				delta[k] = x
+			}
+		}
+		relayed = append(relayed, ds.Encode()...)
+	}
+	if len(relayed) == 0 {
+		return delta, true
+	}
 	if relay {
-		s.msgs = append(s.msgs, ds.Encode()[0])
+		s.msgs = append(s.msgs, relayed)
 	}
 	return delta, false
 }
@@ -318,21 +378,40 @@ func (s *stateImpl) observe(keys []string) obs {
 		o.V[r] = map[string]val{}
 		o.All[r], o.Live[r] = []string{}, []string{}
 		for _, k := range keys {
-			ev := events[k]
-			v := st.VerifGet(ev)
-			o.V[r][k] = val{v.AddTime(), v.DelTime(), st.Has(ev)}
+			v, has, ok := s.uniform(st, k)
+			if !ok {
+				o.V[r][k] = val{-1, -1, false}
+				continue
+			}
+			o.V[r][k] = val{v.AddTime(), v.DelTime(), has}
+			want := map[string]bool{}
+			for _, ev := range s.eventsOf(k) {
+				want[ev.Key()] = true
+			}
+			nAll, nLive := 0, 0
 			st.VerifSubset(typ[k]).Range(nil, true, func(key string, _ rc.Value) bool {
-				if key == ev.Key() {
-					o.All[r] = append(o.All[r], k)
+				if want[key] {
+					nAll++
 				}
 				return true
 			})
 			st.VerifSubset(typ[k]).Range(nil, false, func(key string, _ rc.Value) bool {
-				if key == ev.Key() {
-					o.Live[r] = append(o.Live[r], k)
+				if want[key] {
+					nLive++
 				}
 				return true
 			})
+			// all n of them are listed, or none
+			if nAll == len(want) {
+				o.All[r] = append(o.All[r], k)
+			} else if nAll != 0 {
+				o.All[r] = append(o.All[r], k+"?partial")
+			}
+			if nLive == len(want) {
+				o.Live[r] = append(o.Live[r], k)
+			} else if nLive != 0 {
+				o.Live[r] = append(o.Live[r], k+"?partial")
+			}
 		}
 	}
 	return o
@@ -352,6 +431,11 @@ func newImpl(kind string) impl {
 		return newStateImpl(false)
 	case "state-durable":
 		return newStateImpl(true)
+	case "state-volatile-big":
+		// every model key stands for 1100 real events of its kind (payloads of more than a thousand entries per kind)
+		return newStateImplN(false, 1100)
+	case "state-durable-big":
+		return newStateImplN(true, 1100)
 	}
 	core.Fatalf("unknown impl kind %q", kind)
 	return nil
@@ -527,6 +611,13 @@ func Explore(c *core.Ctx, what string, light bool) int64 {
 		if c.Quick() {
 			kinds = []string{Kinds[i%len(Kinds)], Kinds[(i+2)%len(Kinds)]}
 		}
+		// scale: the same behaviour with every key standing for 1100 events (payloads beyond a thousand entries per kind)
+		if i%12 == 3 {
+			kinds = append(append([]string{}, kinds...), "state-volatile-big")
+		}
+		if i%60 == 7 {
+			kinds = append(append([]string{}, kinds...), "state-durable-big")
+		}
 		for _, kind := range kinds {
 			wg.Add(1)
 			go func(i int, w []json.RawMessage, kind string) {
@@ -552,6 +643,7 @@ func Explore(c *core.Ctx, what string, light bool) int64 {
 	}
 	rej := c.ValidateTraces(traces, core.ValidateOpts{Module: "Crdt_Trace", Cfg: traceCfg(keysTLA, maxTime), ChunkSize: 3000})
 	c.ReportRejections(rej, what)
+	ConcurrentStage(c, what, keys, keysTLA, maxTime)
 	c.Set("distinct_nontrivial", nontrivial)
 	c.Set("rule", "behaviours are TLC-generated (all edges of a small exported state graph as covering walks + -simulate behaviours); one is non-trivial when it delivers at least one payload to a replica that already holds a different value for one of its keys or delivers some payload twice; each behaviour is replayed on 2 (quick) or all 5 (thorough) implementations: Volatile in-process, Volatile with codec hop, Durable (disk + memory), State volatile and State durable with Encode/DecodeState on every hop")
 	c.Set("implementations", Kinds)
